@@ -132,3 +132,167 @@ Proof.
     unfold cur_query, s_query in E2. rewrite <- E2 in Hloc. rewrite Forall_forall in *.
     intros p Hp. apply (Hloc (node_of p)). apply in_map. exact Hp.
 Qed.
+
+(* ---------- queries with filters, end to end at string level ---------- *)
+From JP Require Import GenParse GenBuild FilterParse FilterBuild FilterFacts.
+
+Lemma ok_filters_list l : ok_filters (filters_of_list l) = forallb ok_filter l.
+Proof. induction l as [|x l IH]; [reflexivity|]. unfold filters_of_list in *. cbn [fold_right forallb]. rewrite <- IH. reflexivity. Qed.
+Lemma ok_selectors_list l : ok_selectors (selectors_of_list l) = forallb ok_selector l.
+Proof. induction l as [|x l IH]; [reflexivity|]. unfold selectors_of_list in *. cbn [fold_right forallb]. rewrite <- IH. reflexivity. Qed.
+Lemma ok_segments_list l : ok_segments (segments_of_list l) = forallb ok_segment l.
+Proof. induction l as [|x l IH]; [reflexivity|]. cbn [segments_of_list forallb]. rewrite <- IH. reflexivity. Qed.
+
+Lemma plain_lit_plain k : forallb plain_char k = true -> lit_plain (LStr k) = true.
+Proof.
+  intros H. pose proof (plain_chars_docname k H) as Hd. destruct (docname_plain_parts k Hd) as [Hb [Hc Hq]].
+  unfold lit_plain. rewrite Hb, Hc, Hq. reflexivity.
+Qed.
+
+Lemma sqs_ast_ok s : sqs_good s -> sqseg_ok name_plain (sqs_ast s) = true.
+Proof.
+  destruct s as [k|n|z]; cbn [sqs_good sqs_ast sqseg_ok]; intros H; [|apply shorthand_name_plain; exact H|reflexivity].
+  apply (npq_name_plain k). apply plain_chars_docname. exact H.
+Qed.
+
+Lemma cmp_ast_ok c : xcmpb_good c -> ok_comparable (cmp_ast c) = true.
+Proof.
+  destruct c as [[z|k|b| ]|abs l]; cbn [xcmpb_good cmp_ast lit_ast xlit_good]; intros H; try reflexivity.
+  - apply plain_lit_plain. exact H.
+  - unfold xsq_ast. destruct abs; cbn [ok_comparable squery_ok]; apply forallb_forall; intros x Hx;
+      apply in_map_iff in Hx; destruct Hx as [s [<- Hs]]; apply sqs_ast_ok; rewrite Forall_forall in H; apply H; exact Hs.
+Qed.
+
+Section WfTower.
+  Variable sel : Type.
+  Variable sast : sel -> selector.
+  Variable sgood : sel -> Prop.
+  Hypothesis Hs : forall s, sgood s -> ok_selector (sast s) = true.
+
+  Lemma gbracket_wf s l : sgood s -> Forall sgood l -> ok_segment (gbracket_ast sel sast s l) = true.
+  Proof.
+    intros H1 Hl. unfold gbracket_ast. destruct l as [|s2 l]; [apply Hs; exact H1|].
+    change (ok_selectors (selectors_of_list (map sast (s :: s2 :: l))) = true).
+    rewrite ok_selectors_list. apply forallb_forall. intros x Hx. apply in_map_iff in Hx. destruct Hx as [y [<- Hy]].
+    apply Hs. destruct Hy as [<-|Hy]; [exact H1|]. rewrite Forall_forall in Hl. apply Hl. exact Hy.
+  Qed.
+
+  Lemma gseg_wf g : gseg_good sel sgood g -> ok_segment (gseg_ast sel sast g) = true.
+  Proof.
+    destruct g as [s l|n| |s l|n| ]; cbn [gseg_good gseg_ast]; intros H; try reflexivity.
+    - destruct H. apply gbracket_wf; assumption.
+    - apply (shorthand_name_plain n H).
+    - destruct H. apply (gbracket_wf s l); assumption.
+    - apply (shorthand_name_plain n H).
+  Qed.
+
+  Lemma gsegs_wf q : Forall (gseg_good sel sgood) q -> ok_segments (segments_of_list (map (gseg_ast sel sast) q)) = true.
+  Proof.
+    intros H. rewrite ok_segments_list. apply forallb_forall. intros x Hx. apply in_map_iff in Hx.
+    destruct Hx as [g [<- Hg]]. apply gseg_wf. rewrite Forall_forall in H. apply H. exact Hg.
+  Qed.
+
+  Lemma single_or_ok (wrap : list filter -> filter) l :
+    (forall l', ok_filter (wrap l') = forallb ok_filter l') ->
+    forallb ok_filter l = true -> ok_filter (single_or wrap l) = true.
+  Proof.
+    intros Hw H. unfold single_or. destruct l as [|x [|y l]]; [rewrite Hw; reflexivity| |rewrite Hw; exact H].
+    cbn [forallb] in H. rewrite andb_true_r in H. exact H.
+  Qed.
+
+  Definition Watom (a : xatom sel) : Prop := agood sel sgood a -> ok_atom (atom_ast sel sast a) = true.
+
+  Lemma wf_and c : (forall a, In a c -> Watom a /\ agood sel sgood a) -> ok_filter (and_ast sel sast c) = true.
+  Proof.
+    intros Hc. unfold and_ast. apply single_or_ok.
+    - intros l'. change (ok_filters (filters_of_list l') = forallb ok_filter l'). apply ok_filters_list.
+    - apply forallb_forall. intros x Hx. apply in_map_iff in Hx. destruct Hx as [a [<- Ha]].
+      destruct (Hc a Ha) as [HW Hg]. apply (HW Hg).
+  Qed.
+  Lemma wf_or e : (forall c, In c e -> forall a, In a c -> Watom a /\ agood sel sgood a) -> ok_filter (or_ast sel sast e) = true.
+  Proof.
+    intros He. unfold or_ast. apply single_or_ok.
+    - intros l'. change (ok_filters (filters_of_list l') = forallb ok_filter l'). apply ok_filters_list.
+    - apply forallb_forall. intros x Hx. apply in_map_iff in Hx. destruct Hx as [c [<- Hc]]. apply wf_and. apply He. exact Hc.
+  Qed.
+
+  Lemma watom_all : forall n a, (asize sel a <= n)%nat -> Watom a.
+  Proof.
+    induction n as [|n IH]; intros a Hsz; [destruct a; cbn [asize] in Hsz; lia|].
+    intros Hg. destruct a as [neg e|neg abs q|o l r].
+    - destruct (agood_paren_inv sel sgood neg e Hg) as [Hne He].
+      change (ok_filter (or_ast sel sast e) = true). apply wf_or. intros c Hc a Ha. split.
+      + apply IH. pose proof (asize_in_paren sel neg e c a Hc Ha). lia.
+      + destruct (He c Hc) as [_ H]. apply H. exact Ha.
+    - pose proof (agood_test_inv sel sgood neg abs q Hg) as Hq. cbn [atom_ast].
+      destruct abs; change (ok_segments (segments_of_list (map (gseg_ast sel sast) q)) = true); apply gsegs_wf; exact Hq.
+    - destruct (agood_cmp_inv sel sgood o l r Hg) as [Hl Hr]. cbn [atom_ast].
+      change (ok_comparable (cmp_ast l) && ok_comparable (cmp_ast r) = true). rewrite !cmp_ast_ok by assumption. reflexivity.
+  Qed.
+
+  Lemma filter_wf e : egood sel sgood e -> ok_selector (SelFilter (or_ast sel sast e)) = true.
+  Proof.
+    intros [Hne He]. change (ok_filter (or_ast sel sast e) = true). apply wf_or. intros c Hc a Ha.
+    split; [apply (watom_all (asize sel a) a (le_n _))|]. destruct (He c Hc) as [_ H]. apply H. exact Ha.
+  Qed.
+End WfTower.
+
+Lemma tower_wf n : forall s, sgoodT n s -> ok_selector (sastT n s) = true.
+Proof.
+  induction n as [|n IH].
+  - intros s [Hs _]. apply sel_ast_ok. exact Hs.
+  - intros [p|e] Hg; cbn [sgoodT sastT sgood' sast'] in *.
+    + destruct Hg as [Hs _]. apply sel_ast_ok. exact Hs.
+    + apply (filter_wf (SelT n) (sastT n) (sgoodT n) IH e Hg).
+Qed.
+
+(* C01 / C05 at string level for queries with filters: query_with_path on the canonical text of any query of
+   the tower -- grammar, parser.rs, evaluator incl. Filter::process, comparisons, existence tests -- returns
+   exactly the RFC 9535 nodes with multiplicity, each of them a node of the caller's document *)
+Theorem filter_end_to_end n (q : list (gseg (SelT n))) (d : json) :
+  Forall (gseg_ok (SelT n) (sokT n)) q -> Forall (gseg_good (SelT n) (sgoodT n)) q -> wf_json d = true ->
+  let ast := segments_of_list (map (gseg_ast (SelT n) (sastT n)) q) in
+  exists ps,
+    api_with_path (36%N :: gsegs_text (SelT n) (stextT n) q) d = Some (map (fun p => (inner p, path p)) ps)
+    /\ Permutation (map node_of ps) (rfc_query ast d)
+    /\ Forall (fun p => lookup d (ploc p) = Some (inner p)) ps.
+Proof.
+  intros Hok Hgood Hw ast. unfold api_with_path. rewrite (parse_filter n q Hok Hgood). fold ast.
+  assert (Hwf : wf_query ast = true) by (apply (gsegs_wf (SelT n) (sastT n) (sgoodT n) (tower_wf n) q Hgood)).
+  destruct (js_path_process_refines rx_model_search rx_spec_full rx_spec_sub rx_model_full_ok rx_model_sub_ok ast d Hwf) as [ps [E1 E2]].
+  change (m_query ast d = Some ps) in E1. exists ps. rewrite E1. split; [reflexivity|]. split.
+  - rewrite E2. apply (sel_major_is_permutation rx_spec_full rx_spec_sub jeqb d ast).
+  - pose proof (query_nodes_located rx_spec_full rx_spec_sub jeqb true d ast Hw) as Hloc.
+    unfold cur_query, s_query in E2. rewrite <- E2 in Hloc. rewrite Forall_forall in *.
+    intros p Hp. apply (Hloc (node_of p)). apply in_map. exact Hp.
+Qed.
+
+(* C05 at string level: `$[?e]` keeps exactly the children of the root for which the RFC truth value of e
+   holds, in their original order (exact list equality, not a permutation) *)
+Theorem filter_children_in_order n (e : list (list (xatom (SelT n)))) (d : json) :
+  eok (SelT n) (sokT n) e -> egood (SelT n) (sgoodT n) e -> wf_json d = true ->
+  let f := or_ast (SelT n) (sastT n) e in
+  exists ps,
+    api_with_path (36%N :: 91%N :: filter_text (SelT n) (stextT n) e ++ [93%N]) d
+      = Some (map (fun p => (inner p, path p)) ps)
+    /\ map node_of ps
+       = List.filter (fun c => r_holds rx_spec_full rx_spec_sub jeqb false d f (snd c)) (children ([], d)).
+Proof.
+  intros Hok Hgood Hw f.
+  pose (q := [GBracket (SelT (S n)) (inr e) []]).
+  assert (Hq1 : Forall (gseg_ok (SelT (S n)) (sokT (S n))) q) by (constructor; [split; [exact Hok|constructor]|constructor]).
+  assert (Hq2 : Forall (gseg_good (SelT (S n)) (sgoodT (S n))) q) by (constructor; [split; [exact Hgood|constructor]|constructor]).
+  unfold api_with_path.
+  pose proof (parse_filter (S n) q Hq1 Hq2) as Hp.
+  assert (Et : gsegs_text (SelT (S n)) (stextT (S n)) q = 91%N :: filter_text (SelT n) (stextT n) e ++ [93%N]).
+  { cbn. rewrite app_nil_r. reflexivity. }
+  rewrite Et in Hp. rewrite Hp.
+  set (ast := segments_of_list (map (gseg_ast (SelT (S n)) (sastT (S n))) q)).
+  assert (Ea : ast = GCons (SegSel (SelFilter f)) GNil) by reflexivity.
+  assert (Hwf : wf_query ast = true) by (apply (gsegs_wf (SelT (S n)) (sastT (S n)) (sgoodT (S n)) (tower_wf (S n)) q Hq2)).
+  destruct (js_path_process_refines rx_model_search rx_spec_full rx_spec_sub rx_model_full_ok rx_model_sub_ok ast d Hwf) as [ps [E1 E2]].
+  change (m_query ast d = Some ps) in E1. exists ps. rewrite E1. split; [reflexivity|].
+  rewrite E2, Ea. unfold r_query. autorewrite with rsteps. cbn [flat_map]. rewrite app_nil_r.
+  autorewrite with rsteps. apply filter_ext. intros c.
+  apply (sel_major_filters_agree rx_spec_full rx_spec_sub jeqb d f (snd c)).
+Qed.
